@@ -33,8 +33,18 @@ def plan(tier, seed):
 
 
 def nontrivial(run, I):
+    _helper_after_run(run)
     return "j" if (I.counts.get("joint_masked_runs", 0) or I.counts.get("joint_runs_cost_inflated_by_boundary", 0)
                    or any(k == "joint-boundary-priced" for _, k, _ in I.known)) else None
+
+
+_PENDING = []
+
+
+def _helper_after_run(run):
+    """After a joint run the mask helper is asked again for exactly the stacked lengths the front end used."""
+    if run.joint and run.lens:
+        _PENDING.append(tuple(run.lens))
 
 
 def check_template(res, dp, lens):
@@ -56,6 +66,18 @@ def check_template(res, dp, lens):
         zeros = [int(i) for i in np.nonzero(t == 0)[0]] if t.ndim == 1 else None
         res.violation("mask for stacked lengths %s has zeros at %s, the boundary pairs are %s" % (
             list(lens), zeros, [int(i) for i in np.nonzero(exp == 0)[0]]), case)
+    # history: the caller owns the returned mask and may scale it in place (the docstrings suggest exactly that);
+    # a later request for the same lengths must still be the pristine mask
+    if t.ndim == 1 and t.flags.writeable:
+        try:
+            t *= 7.5
+        except Exception:
+            pass
+        t2 = np.asarray(dp.label_switching_cost_template(list(lens)))
+        res.count("helper_repeat_calls")
+        if t2.shape != (total,) or not np.array_equal(t2.astype(np.float64), exp):
+            res.violation("second request for the mask of stacked lengths %s (after the caller scaled the first one in place) returns %s..." % (
+                list(lens), t2[:8].tolist()), case)
     if len(lens) >= 2:
         res.nontriv("t" + ",".join(map(str, lens)))
 
@@ -80,6 +102,62 @@ def run_helper(spec, res):
             n = int(rng.integers(2, 7))
             check_template(res, dp, tuple(int(v) for v in rng.integers(1, 400, size=n)))
     res.sample(dict(what="helper", example_lengths=[3, 2, 4], expected_zero_indices=[2, 4]))
+    run_composition(spec, res)
+
+
+def check_composition(res, case):
+    """Component level: labelling kernel driven with beta * mask(lengths).  Independence across boundaries means the joint
+    optimum equals the sum of the per-series optima and the returned sequence is optimal within every series."""
+    from fast_ticc import data_preparation as dp
+    from fast_ticc import cluster_label_assignment as cla
+    from ticcmon.oracles import labelling as lab
+    rng = np.random.default_rng(case["rng"])
+    lens = case["lens"]
+    K = case["K"]
+    T = sum(lens)
+    exact = case["exact"]
+    C = rng.integers(0, 5, size=(T, K)).astype(np.float64) if exact else rng.normal(size=(T, K)) * 4
+    beta = float(case["beta"])
+    vec = beta * np.asarray(dp.label_switching_cost_template(list(lens)), dtype=np.float64)
+    try:
+        labels, cost = cla.assign_point_cluster_labels(label_assignment_cost=C.copy(), label_switching_cost=vec.copy())
+    except Exception as e:
+        res.violation("labelling step raised %s on a masked switching cost (lengths %s)" % (type(e).__name__, lens), case)
+        return
+    res.evaluations += 1
+    labels = [int(v) for v in labels]
+    tol = 0.0 if exact else lab.cost_tolerance(C, vec)
+    total_opt = 0.0
+    start = 0
+    for L in lens:
+        sub = C[start:start + L]
+        opt, _ = lab.forward_viterbi(sub, beta)
+        got = lab.path_cost(sub, beta, labels[start:start + L])
+        if got > opt + tol:
+            res.violation("series at rows [%d,%d) of a joint labelling (lengths %s, beta=%g) is labelled at cost %r, alone its optimum is %r" % (
+                start, start + L, lens, beta, got, opt), case)
+            return
+        total_opt += opt
+        start += L
+    if abs(float(cost) - total_opt) > tol * len(lens) + 1e-12 * abs(total_opt):
+        res.violation("joint cost %r != sum of the per-series optima %r (lengths %s, beta=%g)" % (float(cost), total_opt, lens, beta), case)
+    res.count("compositions_checked")
+    if len(lens) >= 2:
+        res.nontriv(common.h(case))
+
+
+def run_composition(spec, res):
+    rng = np.random.default_rng(spec["seed"] + [5])
+    for i in range(400 if not spec["full"] else 3000):
+        ns = int(rng.integers(1, 7))
+        lens = [int(v) for v in rng.integers(1, 12, size=ns)]
+        if rng.random() < 0.3:
+            lens[0] = 1                      # first series contributes exactly one stacked window: beta[0] is a boundary pair
+        if rng.random() < 0.2:
+            lens[-1] = 1
+        case = dict(what="composition", rng=[int(v) for v in spec["seed"]] + [6, i], lens=lens, K=int(rng.integers(2, 5)),
+                    beta=float(rng.choice([0.5, 1, 3, 10])), exact=bool(i % 2))
+        check_composition(res, case)
 
 
 def run_pairs(spec, res):
@@ -137,6 +215,11 @@ def check_pair(res, case, jcase):
 def run_shard(spec, res):
     if spec["what"] in ("e2e", "fixture"):
         ec.run_e2e_shard(spec, res, PROPS, nontrivial)
+        from fast_ticc import data_preparation as dp
+        for lens in _PENDING:
+            check_template(res, dp, lens)
+            res.count("helper_calls_after_joint_runs")
+        del _PENDING[:]
     elif spec["what"] == "helper":
         run_helper(spec, res)
     else:
@@ -147,6 +230,8 @@ def replay(case, res):
     if case.get("what") == "helper":
         from fast_ticc import data_preparation as dp
         check_template(res, dp, tuple(case["lens"]))
+    elif case.get("what") == "composition":
+        check_composition(res, case)
     elif case.get("what") == "pair":
         check_pair(res, case["single"], case["joint"])
     else:
@@ -161,6 +246,7 @@ def finalize(merged, tier):
     if seen < (40 if q else 400):
         out["inconclusive"].append("only %d joint runs with a priced boundary were decided" % seen)
     ec.min_counter(merged, out, "pairs_compared", 8 if q else 60)
+    ec.min_counter(merged, out, "compositions_checked", 500 if q else 4000)
     ec.min_counter(merged, out, "stacked_arrays_checked", 60 if q else 600)
     ec.unexpected(merged, out)
     out["helper_exhaustive"] = (not q)
